@@ -820,8 +820,19 @@ theorem takeUn_un_nil (n : Nat) : takeUn (un n) = some (n, []) := by
   have := takeUn_un n []
   simpa using this
 
-theorem deRsaPriv_ser (k : RsaPriv) : deRsaPriv (serRsaPriv k) = some k := by
-  simp [deRsaPriv, serRsaPriv, List.append_assoc, takeUn_un, takeUn_un_nil]
+theorem takeMany_serNums (xs : List Nat) (r : Bytes) : takeMany xs.length (serNums xs ++ r) = some (xs, r) := by
+  induction xs with
+  | nil => simp [takeMany, serNums]
+  | cons x xs ih => simp [takeMany, serNums, List.append_assoc, takeUn_un, ih]
+
+theorem deRsaPriv_ser (k : RsaPriv) (h : 2 ≤ k.primes.length) : deRsaPriv (serRsaPriv k) = some k := by
+  have hm := takeMany_serNums k.primes []
+  simp only [List.append_nil] at hm
+  have hlt : ¬ k.primes.length < 2 := by omega
+  simp [deRsaPriv, serRsaPriv, takeUn_un, hlt, hm]
+
+theorem rsaValidate_len (k : RsaPriv) (h : rsaValidate k = true) : 2 ≤ k.primes.length := by
+  simpa [rsaValidate] using h
 
 theorem deRsaPub_ser (k : RsaPub) : deRsaPub (serRsaPub k) = some k := by
   simp [deRsaPub, serRsaPub, takeUn_un_nil]
@@ -864,18 +875,31 @@ theorem unpoint_point (f : UInt8) (k : EcPub) : unpoint f (curveCode k.crv) (poi
   obtain ⟨h1, h2, h3⟩ := curve_facts k.crv
   simp [unpoint, point, h1, h2, h3, takeUn_un, takeUn_un_nil]
 
-theorem parsePKCS8_marshal (k : PrivAny RsaPriv EcPriv) (bs : Bytes) (h : marshalPKCS8 k = .ok bs) :
-    parsePKCS8 bs = some k := by
-  cases k with
-  | rsa k => simp [marshalPKCS8] at h; subst h; simp [parsePKCS8, deRsaPriv_ser]
-  | ecdsa k =>
-    simp only [marshalPKCS8] at h
-    split at h
-    · cases h
-    · rename_i hd
-      simp at h; subst h
-      simp [parsePKCS8, deEcPriv_ser k (by omega)]
-  | other => simp [marshalPKCS8] at h; subst h; simp [parsePKCS8]
+theorem order_fits_toy (k : EcPriv) (h : (k.d : Int) < curveOrder (curveCode k.crv)) :
+    k.d < 256 ^ orderBytes k.crv := by
+  obtain ⟨h1, h2, _⟩ := curve_facts k.crv
+  have hfit := order_fits' (curveCode k.crv) h1
+  rw [h2] at hfit
+  have : ((k.d : Nat) : Int) < ((256 ^ orderBytes k.crv : Nat) : Int) := by omega
+  exact Int.ofNat_lt.mp this
+
+theorem parsePKCS8_marshal_rsa (k : RsaPriv) (bs : Bytes) (h : marshalPKCS8 (.rsa k) = .ok bs) :
+    parsePKCS8 bs = some (.rsa k) := by
+  simp only [marshalPKCS8] at h
+  split at h
+  · rename_i hv
+    simp at h; subst h
+    simp [parsePKCS8, deRsaPriv_ser k (rsaValidate_len k hv)]
+  · cases h
+
+theorem parsePKCS8_marshal_ec (k : EcPriv) (bs : Bytes) (h : marshalPKCS8 (.ecdsa k) = .ok bs) :
+    parsePKCS8 bs = some (.ecdsa k) := by
+  simp only [marshalPKCS8] at h
+  split at h
+  · cases h
+  · rename_i hd
+    simp at h; subst h
+    simp [parsePKCS8, deEcPriv_ser k (by omega)]
 
 theorem parsePKIX_marshal (k : PubAny RsaPub EcPub) (bs : Bytes) (h : marshalPKIX k = some bs) :
     parsePKIX bs = some k := by
@@ -884,12 +908,17 @@ theorem parsePKIX_marshal (k : PubAny RsaPub EcPub) (bs : Bytes) (h : marshalPKI
 /-- the toy library with its laws. -/
 def crypto : Crypto where
   toCryptoOps := ops
-  parsePKCS1Priv_marshal k := by
-    simp only [ops, untag, tagged, if_true, Option.bind_some]; exact deRsaPriv_ser k
-  parsePKCS1Pub_marshal k := by
+  parsePKCS1Priv_marshal k bs hv hm := by
+    have hl := rsaValidate_len k hv
+    have hlt : ¬ k.primes.length < 2 := by omega
+    simp only [ops, marshalPKCS1Priv, hlt, if_false, Res.ok.injEq] at hm
+    subst hm
+    simp only [ops, untag, if_true, Option.bind_some]; exact deRsaPriv_ser k hl
+  parsePKCS1Pub_marshal k _ := by
     simp only [ops, untag, tagged, if_true, Option.bind_some]; exact deRsaPub_ser k
-  parsePKCS8_marshal := parsePKCS8_marshal
-  parseSEC1_marshal k bs h := by
+  parsePKCS8_marshal_rsa := parsePKCS8_marshal_rsa
+  parsePKCS8_marshal_ec k bs _ h := parsePKCS8_marshal_ec k bs h
+  parseSEC1_marshal k bs _ h := by
     simp only [ops, marshalSEC1] at h
     split at h
     · cases h
@@ -898,10 +927,11 @@ def crypto : Crypto where
       subst h
       simp only [ops, untag, tagged, if_true, Option.bind_some]
       exact deEcPriv_ser k (by omega)
-  parsePKIX_marshal := parsePKIX_marshal
+  parsePKIX_marshal_rsa k bs _ h := parsePKIX_marshal (.rsa k) bs h
+  parsePKIX_marshal_ec k bs h := parsePKIX_marshal (.ecdsa k) bs h
   parseCert_raw c := by simp [ops, untag, tagged]
   rsaPrivBuild_parts k p q _ := by
-    cases k; simp [ops, rsaPrivBuild, rsaPrivParts]
+    cases k; simp [ops, rsaPrivBuild, rsaPrivParts, List.map_map, Function.comp_def]
   rsaPriv_e_int k := by simp [ops, rsaPrivParts]; decide
   rsaPubMk_parts k := by cases k; simp [ops]
   rsaPub_e_int k := by simp [ops]; decide
@@ -909,10 +939,15 @@ def crypto : Crypto where
     cases k with
     | mk crv d => simp [ops, (curve_facts crv).2.1]
   ecUnmarshal_marshal k _ := unpoint_point 4 k
-  marshalPKCS8_rsa_noPanic k m := by simp [ops, marshalPKCS8]
+  marshalPKCS1Priv_noPanic k m h := by
+    have hl : 2 ≤ k.primes.length := by simpa [ops, rsaPrivParts] using h
+    have hlt : ¬ k.primes.length < 2 := by omega
+    simp [ops, marshalPKCS1Priv, hlt]
+  marshalPKCS8_rsa_noPanic k m := by
+    simp only [ops, marshalPKCS8]; split <;> simp
   marshalPKCS8_parsed_noPanic bs k m h := by
     cases k with
-    | rsa k => simp [ops, marshalPKCS8]
+    | rsa k => simp only [ops, marshalPKCS8]; split <;> simp
     | other => simp [ops, marshalPKCS8]
     | ecdsa k =>
       apply marshalPKCS8_ec_fits
@@ -943,6 +978,27 @@ def crypto : Crypto where
     have hfit := order_fits' c hc
     have : ((d.natAbs : Nat) : Int) < ((256 ^ orderBytes (curveIx c) : Nat) : Int) := by omega
     exact Int.ofNat_lt.mp this
+  marshalPKCS8_ec_noPanic k m h := marshalPKCS8_ec_fits k m (order_fits_toy k h.2)
+  rsaValidate_primes k hv := by
+    have := rsaValidate_len k hv
+    simpa [ops, rsaPrivParts] using this
+  marshalPKCS1Priv_ok k hv := by
+    have hl := rsaValidate_len k hv
+    have hlt : ¬ k.primes.length < 2 := by omega
+    exact ⟨1 :: serRsaPriv k, by simp [ops, marshalPKCS1Priv, hlt]⟩
+  marshalPKCS8_rsa_ok k hv := by
+    have hv' : rsaValidate k = true := hv
+    exact ⟨3 :: serRsaPriv k, by simp [ops, marshalPKCS8, hv']⟩
+  marshalPKIX_rsa_ok k := ⟨_, rfl⟩
+  marshalSEC1_ok k _ hs := by
+    have hd : ¬ k.d ≥ 256 ^ orderBytes k.crv := by
+      have := order_fits_toy k hs.2; omega
+    exact ⟨tagged 6 (serEcPriv k), by simp [ops, marshalSEC1, hd]⟩
+  marshalPKCS8_ec_ok k _ hs := by
+    have hd : ¬ k.d ≥ 256 ^ orderBytes k.crv := by
+      have := order_fits_toy k hs.2; omega
+    exact ⟨4 :: serEcPriv k, by simp [ops, marshalPKCS8, hd]⟩
+  marshalPKIX_ec_ok k _ := ⟨_, rfl⟩
 
 end Toy
 
@@ -957,25 +1013,33 @@ theorem RsaParts.eta2 (P : RsaParts) (p q : Int) (hp : P.primes = [p, q]) :
     RsaParts.mk P.n P.e P.d [p, q] P.dp P.dq P.qinv = P := by
   cases P; simp at hp; simp [hp]
 
-theorem rsaPriv_extract (C : Crypto) (kf : Nat) (k : C.RsaPriv) (o : Obj)
-    (h : registerRsaPriv C.toCryptoOps kf k = .ok o) :
+/-! The lemmas are stated for a CHOSEN format `f` (`register…F`); the selector of HEAD is one way to choose. -/
+
+theorem rsaPriv_extractF (C : Crypto) (f : Nat) (k : C.RsaPriv) (o : Obj) (hv : C.rsaValidate k = true)
+    (h : registerRsaPrivF C.toCryptoOps f k = .ok o) :
     getRsaPrivateKey C.toCryptoOps (respOf o) = .ok k := by
-  unfold registerRsaPriv at h
+  unfold registerRsaPrivF at h
   simp only at h
   split at h
   · cases h
   · split at h
-    · cases h
-      simp [getRsaPrivateKey, respOf, Obj.typeCode, rawKeyBytes, plainKB, privRSA, getBytes, getMaterial,
-        ofOption, fPKCS1, C.parsePKCS1Priv_marshal]
+    · cases hm : C.marshalPKCS1Priv k with
+      | ok der =>
+        rw [hm] at h
+        cases h
+        simp [getRsaPrivateKey, respOf, Obj.typeCode, rawKeyBytes, plainKB, privRSA, getBytes, getMaterial,
+          ofOption, fPKCS1, C.parsePKCS1Priv_marshal k der hv hm]
+      | err e => rw [hm] at h; cases h
+      | panic m => rw [hm] at h; cases h
     · split at h
-      · split at h
-        · rename_i der hder
+      · cases hm : C.marshalPKCS8 (.rsa k) with
+        | ok der =>
+          rw [hm] at h
           cases h
           simp [getRsaPrivateKey, respOf, Obj.typeCode, rawKeyBytes, plainKB, privRSA, getBytes, getMaterial,
-            fPKCS1, fPKCS8, C.parsePKCS8_marshal _ _ hder]
-        · cases h
-        · cases h
+            fPKCS1, fPKCS8, C.parsePKCS8_marshal_rsa _ _ hm]
+        | err e => rw [hm] at h; cases h
+        | panic m => rw [hm] at h; cases h
       · split at h
         · split at h
           · rename_i p q hp
@@ -988,24 +1052,24 @@ theorem rsaPriv_extract (C : Crypto) (kf : Nat) (k : C.RsaPriv) (o : Obj)
           · cases h
         · cases h
 
-theorem rsaPub_extract (C : Crypto) (kf : Nat) (k : C.RsaPub) (o : Obj)
-    (h : registerRsaPub C.toCryptoOps kf k = .ok o) :
+theorem rsaPub_extractF (C : Crypto) (f : Nat) (k : C.RsaPub) (o : Obj) (hv : C.rsaPubValid k = true)
+    (h : registerRsaPubF C.toCryptoOps f k = .ok o) :
     getRsaPublicKey C.toCryptoOps (respOf o) = .ok k := by
-  unfold registerRsaPub at h
+  unfold registerRsaPubF at h
   simp only at h
   split at h
   · cases h
   · split at h
     · cases h
       simp [getRsaPublicKey, respOf, Obj.typeCode, rawKeyBytes, plainKB, pubRSA, getBytes, getMaterial,
-        ofOption, fPKCS1, C.parsePKCS1Pub_marshal]
+        ofOption, fPKCS1, C.parsePKCS1Pub_marshal k hv]
     · split at h
       · split at h
         · cases h
         · rename_i der hder
           cases h
           simp [getRsaPublicKey, respOf, Obj.typeCode, rawKeyBytes, plainKB, pubRSA, getBytes, getMaterial,
-            fPKCS1, fX509, C.parsePKIX_marshal _ _ hder]
+            fPKCS1, fX509, C.parsePKIX_marshal_rsa _ _ hv hder]
       · split at h
         · cases h
           have he := C.rsaPub_e_int k
@@ -1013,11 +1077,26 @@ theorem rsaPub_extract (C : Crypto) (kf : Nat) (k : C.RsaPub) (o : Obj)
             fPKCS1, fX509, fTransparentRSAPublicKey, he, toInt64_of_isInt64 he, C.rsaPubMk_parts]
         · cases h
 
-theorem ecPriv_extract (C : Crypto) (kf : Nat) (ver : Nat × Nat) (k : C.EcPriv) (o : Obj)
-    (hr : ecdsaPrivFormat kf = kfTransparent → 0 < C.ecPrivD k ∧ C.ecPrivD k < C.curveOrder (C.ecPrivCurve k))
-    (h : registerEcPriv C.toCryptoOps kf ver k = .ok o) :
+/-- the transparent RSA public key needs nothing of the standard library: any modulus, any `int` exponent. -/
+theorem rsaPub_extract_transparent (C : Crypto) (k : C.RsaPub) (o : Obj)
+    (h : registerRsaPubF C.toCryptoOps kfTransparent k = .ok o) :
+    getRsaPublicKey C.toCryptoOps (respOf o) = .ok k := by
+  unfold registerRsaPubF at h
+  simp only [kfTransparent, kfPKCS1, kfX509] at h
+  split at h
+  · cases h
+  · simp only [show ¬ (1 : Nat) = 8 by decide, show ¬ (1 : Nat) = 2 by decide, if_false, if_true] at h
+    cases h
+    have he := C.rsaPub_e_int k
+    simp [getRsaPublicKey, respOf, Obj.typeCode, plainKB, pubRSA, getMaterial,
+      fPKCS1, fX509, fTransparentRSAPublicKey, he, toInt64_of_isInt64 he, C.rsaPubMk_parts]
+
+theorem ecPriv_extractF (C : Crypto) (f : Nat) (ver : Nat × Nat) (k : C.EcPriv) (o : Obj)
+    (hr : C.toCryptoOps.ScalarIn k)
+    (h : registerEcPrivF C.toCryptoOps f ver k = .ok o) :
     getEcdsaPrivateKey C.toCryptoOps (respOf o) = .ok k := by
-  unfold registerEcPriv at h
+  have hr' : 0 < C.ecPrivD k ∧ C.ecPrivD k < C.curveOrder (C.ecPrivCurve k) := hr
+  unfold registerEcPrivF at h
   simp only at h
   split at h
   · cases h
@@ -1029,39 +1108,37 @@ theorem ecPriv_extract (C : Crypto) (kf : Nat) (ver : Nat × Nat) (k : C.EcPriv)
       · rename_i der hder
         cases h
         simp [getEcdsaPrivateKey, respOf, Obj.typeCode, rawKeyBytes, plainKB, privECDSA, getBytes, getMaterial,
-          ofOption, fECPrivateKey, C.parseSEC1_marshal _ _ hder]
+          ofOption, fECPrivateKey, C.parseSEC1_marshal _ _ hr hder]
     · split at h
       · split at h
         · rename_i der hder
           cases h
           simp [getEcdsaPrivateKey, respOf, Obj.typeCode, rawKeyBytes, plainKB, privECDSA, getBytes,
-            getMaterial, fECPrivateKey, fPKCS8, C.parsePKCS8_marshal _ _ hder]
+            getMaterial, fECPrivateKey, fPKCS8, C.parsePKCS8_marshal_ec _ _ hr hder]
         · cases h
         · cases h
       · split at h
-        · rename_i hft
-          have hr := hr hft
-          split at h
+        · split at h
           · cases h
             simp [getEcdsaPrivateKey, respOf, Obj.typeCode, plainKB, privECDSA, getMaterial, ecPrivSlot,
               privECDSATail, fECPrivateKey, fPKCS8, fTransparentECPrivateKey, fTransparentECDSAPrivateKey,
-              hc', C.ecPrivBuild_parts k hc', hr]
+              hc', C.ecPrivBuild_parts k hc', hr']
           · cases h
             simp [getEcdsaPrivateKey, respOf, Obj.typeCode, plainKB, privECDSA, getMaterial, ecPrivSlot,
               privECDSATail, fECPrivateKey, fPKCS8, fTransparentECPrivateKey, fTransparentECDSAPrivateKey,
-              hc', C.ecPrivBuild_parts k hc', hr]
+              hc', C.ecPrivBuild_parts k hc', hr']
         · cases h
 
 /-- a transparent EC private key whose scalar is not in `[1, n-1]` is registered as it is and refused by
     the accessor (e2e4a08). -/
-theorem ecPriv_extract_invalid (C : Crypto) (kf : Nat) (ver : Nat × Nat) (k : C.EcPriv) (o : Obj)
-    (hf : ecdsaPrivFormat kf = kfTransparent)
-    (hr : ¬ (0 < C.ecPrivD k ∧ C.ecPrivD k < C.curveOrder (C.ecPrivCurve k)))
-    (h : registerEcPriv C.toCryptoOps kf ver k = .ok o) :
+theorem ecPriv_extract_invalid (C : Crypto) (ver : Nat × Nat) (k : C.EcPriv) (o : Obj)
+    (hr : ¬ C.toCryptoOps.ScalarIn k)
+    (h : registerEcPrivF C.toCryptoOps kfTransparent ver k = .ok o) :
     getEcdsaPrivateKey C.toCryptoOps (respOf o) = .err .range := by
-  have hr' : C.ecPrivD k ≤ 0 ∨ C.ecPrivD k ≥ C.curveOrder (C.ecPrivCurve k) := by omega
-  unfold registerEcPriv at h
-  simp only [hf] at h
+  have hr' : C.ecPrivD k ≤ 0 ∨ C.ecPrivD k ≥ C.curveOrder (C.ecPrivCurve k) := by
+    unfold CryptoOps.ScalarIn at hr; omega
+  unfold registerEcPrivF at h
+  simp only at h
   split at h
   · cases h
   · rename_i hc
@@ -1076,10 +1153,10 @@ theorem ecPriv_extract_invalid (C : Crypto) (kf : Nat) (ver : Nat × Nat) (k : C
       simp [getEcdsaPrivateKey, respOf, Obj.typeCode, plainKB, privECDSA, getMaterial, ecPrivSlot,
         privECDSATail, fECPrivateKey, fPKCS8, fTransparentECPrivateKey, fTransparentECDSAPrivateKey, hc', hr']
 
-theorem ecPub_extract (C : Crypto) (kf : Nat) (ver : Nat × Nat) (k : C.EcPub) (o : Obj)
-    (h : registerEcPub C.toCryptoOps kf ver k = .ok o) :
+theorem ecPub_extractF (C : Crypto) (f : Nat) (ver : Nat × Nat) (k : C.EcPub) (o : Obj)
+    (h : registerEcPubF C.toCryptoOps f ver k = .ok o) :
     getEcdsaPublicKey C.toCryptoOps (respOf o) = .ok k := by
-  unfold registerEcPub at h
+  unfold registerEcPubF at h
   simp only at h
   split at h
   · cases h
@@ -1091,7 +1168,7 @@ theorem ecPub_extract (C : Crypto) (kf : Nat) (ver : Nat × Nat) (k : C.EcPub) (
       · rename_i der hder
         cases h
         simp [getEcdsaPublicKey, respOf, Obj.typeCode, rawKeyBytes, plainKB, pubECDSA, getBytes, getMaterial,
-          fX509, C.parsePKIX_marshal _ _ hder]
+          fX509, C.parsePKIX_marshal_ec _ _ hder]
     · split at h
       · split at h
         · cases h
@@ -1104,9 +1181,9 @@ theorem ecPub_extract (C : Crypto) (kf : Nat) (ver : Nat × Nat) (k : C.EcPub) (
             hc', C.ecUnmarshal_marshal k hc']
       · cases h
 
-theorem sym_extract (kf alg : Nat) (v : Bytes) (o : Obj) (h : registerSym kf alg v = .ok o) :
+theorem sym_extractF (f alg : Nat) (v : Bytes) (o : Obj) (h : registerSymF f alg v = .ok o) :
     getSymmetricKey (respOf o) = .ok v := by
-  unfold registerSym at h
+  unfold registerSymF at h
   simp only at h
   split at h
   · cases h
@@ -1322,21 +1399,117 @@ theorem symmetricFormat_mem (kf : Nat) :
     · exact Or.inr rfl
     · exact Or.inl rfl
 
+/-! #### admissible formats -/
+
+theorem hasFmt_zero (b : Nat) (hb : b ≠ 0) : hasFmt 0 b = false := by
+  simp [hasFmt, Nat.zero_and]; omega
+
+/-- an admissible format is one of the formats of the kind. -/
+theorem admissible_mem (k : KeyKind) (kf f : Nat) (h : admissible k kf f = true) : f ∈ k.formats := by
+  unfold admissible at h
+  simp only at h
+  split at h
+  · have : f = k.defaultFormat := by simpa using h
+    subst this
+    cases k <;> simp [KeyKind.formats, KeyKind.defaultFormat]
+  · have h' : f ∈ k.formats.filter (fun b => hasFmt kf b) := by simpa using h
+    exact (List.mem_filter.mp h').1
+
+/-- the selector of HEAD makes an admissible choice, for every mask. -/
+theorem selectFormat_admissible (k : KeyKind) (kf : Nat) : admissible k kf (selectFormat k kf) = true := by
+  by_cases h0 : kf = 0
+  · subst h0
+    cases k <;>
+      simp [admissible, selectFormat, KeyKind.formats, KeyKind.defaultFormat, rsaPrivFormat, rsaPubFormat,
+        ecdsaPrivFormat, ecdsaPubFormat, symmetricFormat, hasFmt, kfPKCS1, kfPKCS8, kfTransparent, kfX509, kfSEC1,
+        kfRAW]
+  · cases k
+    · -- rsaPriv
+      by_cases h1 : hasFmt kf kfPKCS1 = true <;> by_cases h2 : hasFmt kf kfPKCS8 = true <;>
+        by_cases h3 : hasFmt kf kfTransparent = true <;>
+        simp [admissible, selectFormat, KeyKind.formats, KeyKind.defaultFormat, rsaPrivFormat, h0, h1, h2, h3,
+          List.filter, kfPKCS1, kfPKCS8, kfTransparent] <;>
+        simp_all [kfPKCS1, kfPKCS8, kfTransparent]
+    · -- rsaPub
+      by_cases h1 : hasFmt kf kfPKCS1 = true <;> by_cases h2 : hasFmt kf kfX509 = true <;>
+        by_cases h3 : hasFmt kf kfTransparent = true <;>
+        simp [admissible, selectFormat, KeyKind.formats, KeyKind.defaultFormat, rsaPubFormat, h0, h1, h2, h3,
+          List.filter, kfPKCS1, kfX509, kfTransparent] <;>
+        simp_all [kfPKCS1, kfX509, kfTransparent]
+    · -- ecPriv
+      by_cases h1 : hasFmt kf kfSEC1 = true <;> by_cases h2 : hasFmt kf kfPKCS8 = true <;>
+        by_cases h3 : hasFmt kf kfTransparent = true <;>
+        simp [admissible, selectFormat, KeyKind.formats, KeyKind.defaultFormat, ecdsaPrivFormat, h0, h1, h2, h3,
+          List.filter, kfSEC1, kfPKCS8, kfTransparent] <;>
+        simp_all [kfSEC1, kfPKCS8, kfTransparent]
+    · -- ecPub
+      by_cases h1 : hasFmt kf kfX509 = true <;> by_cases h3 : hasFmt kf kfTransparent = true <;>
+        simp [admissible, selectFormat, KeyKind.formats, KeyKind.defaultFormat, ecdsaPubFormat, h0, h1, h3,
+          List.filter, kfX509, kfTransparent] <;>
+        simp_all [kfX509, kfTransparent]
+    · -- sym
+      by_cases h1 : hasFmt kf kfRAW = true <;> by_cases h3 : hasFmt kf kfTransparent = true <;>
+        simp [admissible, selectFormat, KeyKind.formats, KeyKind.defaultFormat, symmetricFormat, h0, h1, h3,
+          List.filter, kfRAW, kfTransparent] <;>
+        simp_all [kfRAW, kfTransparent]
+    · -- secret
+      by_cases h1 : hasFmt kf kfRAW = true <;>
+        simp [admissible, selectFormat, KeyKind.formats, KeyKind.defaultFormat, h1, List.filter, kfRAW] <;>
+        simp_all [kfRAW]
+
+theorem selectFormat_mem (k : KeyKind) (kf : Nat) : selectFormat k kf ∈ k.formats :=
+  admissible_mem k kf _ (selectFormat_admissible k kf)
+
+/-! #### validity, acceptance, panics -/
+
+/-- what the standard library itself calls a key: an RSA private key passes `Validate`, an RSA public key is
+    one the x509 parsers accept, the scalar of an ECDSA private key is in `[1, n-1]`. -/
+def Valid {C : CryptoOps} : AnyKey C → Prop
+  | .rsaPriv k => C.rsaValidate k = true
+  | .rsaPub k => C.rsaPubValid k = true
+  | .ecPriv k => C.ScalarIn k
+  | _ => True
+
+/-- the reasons for which a builder may refuse a valid key in the format `f`: a length that does not fit an
+    int32, a curve other than P-224/256/384/521, an RSA key with more than two primes in the transparent
+    format (which has `P` and `Q` only). -/
+def AcceptableF {C : CryptoOps} (f : Nat) : AnyKey C → Prop
+  | .rsaPriv k => bitLen (C.rsaPrivParts k).n ≤ maxInt32 ∧
+      (f = kfTransparent → (C.rsaPrivParts k).primes.length = 2)
+  | .rsaPub k => bitLen (C.rsaPubN k) ≤ maxInt32
+  | .ecPriv k => curveSupported (C.ecPrivCurve k) = true
+  | .ecPub k => curveSupported (C.ecPubCurve k) = true
+  | .sym _ v => v.length * 8 ≤ maxInt32
+  | .secret .. => True
+
+/-- the standard library panicked while marshalling THIS key. -/
+def StdlibPanicOn (C : CryptoOps) (key : AnyKey C) (m : String) : Prop :=
+  match key with
+  | .rsaPriv k => C.marshalPKCS1Priv k = .panic m ∨ C.marshalPKCS8 (.rsa k) = .panic m
+  | .ecPriv k => C.marshalPKCS8 (.ecdsa k) = .panic m
+  | _ => False
+
 /-- HEAD refuses an RSA private key that has not exactly two primes in the transparent format. -/
-theorem registerRsaPriv_refuses (C : CryptoOps) (kf : Nat) (k : C.RsaPriv)
-    (hlen : bitLen (C.rsaPrivParts k).n ≤ maxInt32) (hf : rsaPrivFormat kf = kfTransparent)
-    (hp : (C.rsaPrivParts k).primes.length ≠ 2) : ∃ e, registerRsaPriv C kf k = .err e := by
+theorem registerRsaPrivF_refuses (C : CryptoOps) (k : C.RsaPriv)
+    (hlen : bitLen (C.rsaPrivParts k).n ≤ maxInt32)
+    (hp : (C.rsaPrivParts k).primes.length ≠ 2) : registerRsaPrivF C kfTransparent k = .err .other := by
   have h1 : ¬ bitLen (C.rsaPrivParts k).n > maxInt32 := by omega
-  refine ⟨.other, ?_⟩
   cases hpr : (C.rsaPrivParts k).primes with
-  | nil => simp [registerRsaPriv, h1, hf, hpr, kfTransparent, kfPKCS1, kfPKCS8]
+  | nil => simp [registerRsaPrivF, h1, hpr, kfTransparent, kfPKCS1, kfPKCS8]
   | cons a t =>
     cases t with
-    | nil => simp [registerRsaPriv, h1, hf, hpr, kfTransparent, kfPKCS1, kfPKCS8]
+    | nil => simp [registerRsaPrivF, h1, hpr, kfTransparent, kfPKCS1, kfPKCS8]
     | cons b t' =>
       cases t' with
       | nil => rw [hpr] at hp; simp at hp
-      | cons c t'' => simp [registerRsaPriv, h1, hf, hpr, kfTransparent, kfPKCS1, kfPKCS8]
+      | cons c t'' => simp [registerRsaPrivF, h1, hpr, kfTransparent, kfPKCS1, kfPKCS8]
+
+theorem registerRsaPriv_refuses (C : CryptoOps) (kf : Nat) (k : C.RsaPriv)
+    (hlen : bitLen (C.rsaPrivParts k).n ≤ maxInt32) (hf : rsaPrivFormat kf = kfTransparent)
+    (hp : (C.rsaPrivParts k).primes.length ≠ 2) : ∃ e, registerRsaPriv C kf k = .err e := by
+  unfold registerRsaPriv
+  rw [hf]
+  exact ⟨_, registerRsaPrivF_refuses C k hlen hp⟩
 
 /-- before d693174 the builder panicked on a key with fewer than two primes. -/
 theorem registerRsaPrivOld_panics (C : CryptoOps) (kf : Nat) (k : C.RsaPriv)
@@ -1351,85 +1524,175 @@ theorem registerRsaPrivOld_panics (C : CryptoOps) (kf : Nat) (k : C.RsaPriv)
     | nil => simp [registerRsaPrivOld, h1, hf, hpr, kfTransparent, kfPKCS1, kfPKCS8]
     | cons b t' => rw [hpr] at hp; simp at hp; omega
 
-/-- a register builder never panics in its own code ("Unexpected key format" is unreachable, the prime
-    index is guarded): a panic is one of `x509.MarshalPKCS8PrivateKey` on the caller's key. -/
-theorem register_panic_only (C : CryptoOps) (kf : Nat) (ver : Nat × Nat) (key : AnyKey C) (m : String)
-    (h : register C kf ver key = .panic m) : ∃ pk, C.marshalPKCS8 pk = .panic m := by
+/-- a register builder never panics in its own code ("Unexpected key format" is unreachable for a format of
+    the kind, the prime index is guarded): a panic is one of `x509.MarshalPKCS1PrivateKey` /
+    `x509.MarshalPKCS8PrivateKey` applied to the caller's key. -/
+theorem registerF_panic_only (C : CryptoOps) (f : Nat) (ver : Nat × Nat) (key : AnyKey C)
+    (hf : f ∈ key.kind.formats) (m : String)
+    (h : registerF C f ver key = .panic m) : StdlibPanicOn C key m := by
   cases key with
   | rsaPriv k =>
-    simp only [register, registerRsaPriv] at h
+    simp only [AnyKey.kind, KeyKind.formats, List.mem_cons, List.not_mem_nil, or_false] at hf
+    simp only [registerF, registerRsaPrivF] at h
     split at h
     · cases h
-    · split at h
-      · cases h
-      · split at h
-        · split at h
-          · cases h
-          · cases h
-          · rename_i m' hm
-            simp only [Res.panic.injEq] at h
-            subst h
-            exact ⟨_, hm⟩
-        · split at h
-          · split at h <;> cases h
-          · exfalso
-            rename_i h1 h2 h3
-            rcases rsaPrivFormat_mem kf with h | h | h <;> contradiction
+    · rcases hf with rfl | rfl | rfl
+      · simp only [kfPKCS1, if_true] at h
+        cases hm : C.marshalPKCS1Priv k with
+        | ok der => rw [hm] at h; cases h
+        | err e => rw [hm] at h; cases h
+        | panic m' =>
+          rw [hm] at h
+          simp only [Res.panic.injEq] at h
+          subst h
+          exact Or.inl hm
+      · simp only [kfPKCS8, kfPKCS1, show ¬ (4 : Nat) = 8 by decide, if_false, if_true] at h
+        cases hm : C.marshalPKCS8 (.rsa k) with
+        | ok der => rw [hm] at h; cases h
+        | err e => rw [hm] at h; cases h
+        | panic m' =>
+          rw [hm] at h
+          simp only [Res.panic.injEq] at h
+          subst h
+          exact Or.inr hm
+      · exfalso
+        simp only [kfTransparent, kfPKCS8, kfPKCS1, show ¬ (1 : Nat) = 8 by decide,
+          show ¬ (1 : Nat) = 4 by decide, if_false, if_true] at h
+        split at h <;> cases h
   | rsaPub k =>
     exfalso
-    simp only [register, registerRsaPub] at h
+    simp only [AnyKey.kind, KeyKind.formats, List.mem_cons, List.not_mem_nil, or_false] at hf
+    simp only [registerF, registerRsaPubF] at h
     split at h
     · cases h
-    · split at h
-      · cases h
-      · split at h
-        · split at h <;> cases h
-        · split at h
-          · cases h
-          · rename_i h1 h2 h3
-            rcases rsaPubFormat_mem kf with h | h | h <;> contradiction
+    · rcases hf with rfl | rfl | rfl
+      · simp [kfPKCS1] at h
+      · simp only [kfX509, kfPKCS1, show ¬ (2 : Nat) = 8 by decide, if_false, if_true] at h
+        split at h <;> cases h
+      · simp [kfTransparent, kfX509, kfPKCS1] at h
   | ecPriv k =>
-    simp only [register, registerEcPriv] at h
+    simp only [AnyKey.kind, KeyKind.formats, List.mem_cons, List.not_mem_nil, or_false] at hf
+    simp only [registerF, registerEcPrivF] at h
     split at h
     · cases h
-    · split at h
-      · split at h <;> cases h
-      · split at h
-        · split at h
-          · cases h
-          · cases h
-          · rename_i m' hm
-            simp only [Res.panic.injEq] at h
-            subst h
-            exact ⟨_, hm⟩
-        · exfalso
-          split at h
-          · split at h <;> cases h
-          · rename_i h1 h2 h3
-            rcases ecdsaPrivFormat_mem kf with h | h | h <;> contradiction
+    · rcases hf with rfl | rfl | rfl
+      · exfalso
+        simp only [kfSEC1, if_true] at h
+        split at h <;> cases h
+      · simp only [kfPKCS8, kfSEC1, show ¬ (4 : Nat) = 16 by decide, if_false, if_true] at h
+        cases hm : C.marshalPKCS8 (.ecdsa k) with
+        | ok der => rw [hm] at h; cases h
+        | err e => rw [hm] at h; cases h
+        | panic m' =>
+          rw [hm] at h
+          simp only [Res.panic.injEq] at h
+          subst h
+          exact hm
+      · exfalso
+        simp only [kfTransparent, kfPKCS8, kfSEC1, show ¬ (1 : Nat) = 16 by decide,
+          show ¬ (1 : Nat) = 4 by decide, if_false, if_true] at h
+        split at h <;> cases h
   | ecPub k =>
     exfalso
-    simp only [register, registerEcPub] at h
+    simp only [AnyKey.kind, KeyKind.formats, List.mem_cons, List.not_mem_nil, or_false] at hf
+    simp only [registerF, registerEcPubF] at h
     split at h
     · cases h
-    · split at h
-      · split at h <;> cases h
-      · split at h
-        · split at h <;> cases h
-        · rename_i h1 h2
-          rcases ecdsaPubFormat_mem kf with h | h <;> contradiction
+    · rcases hf with rfl | rfl
+      · simp only [kfX509, if_true] at h
+        split at h <;> cases h
+      · simp only [kfTransparent, kfX509, show ¬ (1 : Nat) = 2 by decide, if_false, if_true] at h
+        split at h <;> cases h
   | sym alg v =>
     exfalso
-    simp only [register, registerSym] at h
+    simp only [AnyKey.kind, KeyKind.formats, List.mem_cons, List.not_mem_nil, or_false] at hf
+    simp only [registerF, registerSymF] at h
     split at h
     · cases h
-    · split at h
-      · cases h
-      · split at h
-        · cases h
-        · rename_i h1 h2
-          rcases symmetricFormat_mem kf with h | h <;> contradiction
+    · rcases hf with rfl | rfl
+      · simp [kfRAW] at h
+      · simp [kfTransparent, kfRAW] at h
   | secret kind v =>
-    simp [register, registerSecret] at h
+    simp [registerF, registerSecret] at h
+
+/-- under the laws, the standard library does not panic on a valid key. -/
+theorem valid_no_stdlib_panic (C : Crypto) (key : AnyKey C.toCryptoOps) (hv : Valid key) (m : String) :
+    ¬ StdlibPanicOn C.toCryptoOps key m := by
+  cases key with
+  | rsaPriv k =>
+    intro h
+    rcases h with h | h
+    · exact C.marshalPKCS1Priv_noPanic k m (C.rsaValidate_primes k hv) h
+    · exact C.marshalPKCS8_rsa_noPanic k m h
+  | ecPriv k => exact fun h => C.marshalPKCS8_ec_noPanic k m hv h
+  | rsaPub k => exact fun h => h
+  | ecPub k => exact fun h => h
+  | sym a v => exact fun h => h
+  | secret a v => exact fun h => h
+
+/-- ACCEPTANCE: a valid key that is not refused for one of the reasons of `AcceptableF` is registered, in
+    every format of its kind. -/
+theorem registerF_accepts (C : Crypto) (f : Nat) (ver : Nat × Nat) (key : AnyKey C.toCryptoOps)
+    (hf : f ∈ key.kind.formats) (hv : Valid key) (ha : AcceptableF f key) :
+    ∃ o, registerF C.toCryptoOps f ver key = .ok o := by
+  cases key with
+  | rsaPriv k =>
+    simp only [AnyKey.kind, KeyKind.formats, List.mem_cons, List.not_mem_nil, or_false] at hf
+    obtain ⟨hlen, h2⟩ := ha
+    have h1 : ¬ bitLen (C.rsaPrivParts k).n > maxInt32 := by omega
+    rcases hf with rfl | rfl | rfl
+    · obtain ⟨bs, hbs⟩ := C.marshalPKCS1Priv_ok k hv
+      simp [registerF, registerRsaPrivF, h1, hbs, kfPKCS1]
+    · obtain ⟨bs, hbs⟩ := C.marshalPKCS8_rsa_ok k hv
+      simp [registerF, registerRsaPrivF, h1, hbs, kfPKCS1, kfPKCS8]
+    · have hl := h2 rfl
+      cases hpr : (C.rsaPrivParts k).primes with
+      | nil => rw [hpr] at hl; simp at hl
+      | cons a t =>
+        cases t with
+        | nil => rw [hpr] at hl; simp at hl
+        | cons b t' =>
+          cases t' with
+          | nil => simp [registerF, registerRsaPrivF, h1, hpr, kfPKCS1, kfPKCS8, kfTransparent]
+          | cons c t'' => rw [hpr] at hl; simp at hl
+  | rsaPub k =>
+    simp only [AnyKey.kind, KeyKind.formats, List.mem_cons, List.not_mem_nil, or_false] at hf
+    have h1 : ¬ bitLen (C.rsaPubN k) > maxInt32 := by
+      have : bitLen (C.rsaPubN k) ≤ maxInt32 := ha
+      omega
+    rcases hf with rfl | rfl | rfl
+    · simp [registerF, registerRsaPubF, h1, kfPKCS1]
+    · obtain ⟨bs, hbs⟩ := C.marshalPKIX_rsa_ok k
+      simp [registerF, registerRsaPubF, h1, hbs, kfPKCS1, kfX509]
+    · simp [registerF, registerRsaPubF, h1, kfPKCS1, kfX509, kfTransparent]
+  | ecPriv k =>
+    simp only [AnyKey.kind, KeyKind.formats, List.mem_cons, List.not_mem_nil, or_false] at hf
+    have hc : curveSupported (C.ecPrivCurve k) = true := ha
+    rcases hf with rfl | rfl | rfl
+    · obtain ⟨bs, hbs⟩ := C.marshalSEC1_ok k hc hv
+      simp [registerF, registerEcPrivF, hc, hbs, kfSEC1]
+    · obtain ⟨bs, hbs⟩ := C.marshalPKCS8_ec_ok k hc hv
+      simp [registerF, registerEcPrivF, hc, hbs, kfSEC1, kfPKCS8]
+    · cases hver : verGE13 ver
+      · simp [registerF, registerEcPrivF, hc, hver, kfSEC1, kfPKCS8, kfTransparent]
+      · simp [registerF, registerEcPrivF, hc, hver, kfSEC1, kfPKCS8, kfTransparent]
+  | ecPub k =>
+    simp only [AnyKey.kind, KeyKind.formats, List.mem_cons, List.not_mem_nil, or_false] at hf
+    have hc : curveSupported (C.ecPubCurve k) = true := ha
+    rcases hf with rfl | rfl
+    · obtain ⟨bs, hbs⟩ := C.marshalPKIX_ec_ok k hc
+      simp [registerF, registerEcPubF, hc, hbs, kfX509]
+    · cases hver : verGE13 ver
+      · simp [registerF, registerEcPubF, hc, hver, kfX509, kfTransparent]
+      · simp [registerF, registerEcPubF, hc, hver, kfX509, kfTransparent]
+  | sym alg v =>
+    simp only [AnyKey.kind, KeyKind.formats, List.mem_cons, List.not_mem_nil, or_false] at hf
+    have h1 : ¬ v.length * 8 > maxInt32 := by
+      have : v.length * 8 ≤ maxInt32 := ha
+      omega
+    rcases hf with rfl | rfl
+    · simp [registerF, registerSymF, h1, kfRAW]
+    · simp [registerF, registerSymF, h1, kfRAW, kfTransparent]
+  | secret kind v => exact ⟨_, rfl⟩
 
 end Kmip.Key
